@@ -10,7 +10,7 @@ From SpdVerif Require Import Base.Rx Model.SpectrumSetup Gen.Spectrum Gen.Effici
 From SpdVerif Require Import Spec.CrystalTypes Gen.Crystals Proofs.Sellmeier Model.Optics Model.Fresnel Proofs.Compose_index Proofs.C07_builtin.
 From Coquelicot Require Import Coquelicot.
 From SpdVerif Require Import Model.PMParams Gen.PMIntegrand Proofs.C07_counts Proofs.C07_frame.
-From SpdVerif Require Import Model.FinSum Model.Hom Model.Hom2 Model.Schmidt Gen.HomSrc Gen.SchmidtSrc Proofs.C07_ratios Proofs.C07_examples2.
+From SpdVerif Require Import Model.FinSum Model.Hom Model.Hom2 Model.Schmidt Gen.HomSrc Proofs.C07_ratios Proofs.C07_examples2.
 Local Open Scope R_scope.
 
 (* ---------- 1. linearity in power, quadratic in deff; for ALL inputs (no side condition) *)
